@@ -233,8 +233,25 @@ class Ctx:
 	def elapsed(self) -> float:
 		return time.time() - self.t0
 
+	def budget_clock(self) -> float:
+		"""Seconds charged against the stream budgets. On a quiet machine this is wall time. When the machine is oversubscribed
+		(load average above the number of CPUs: other checks, test suites) wall time says little about how much of a stream has
+		run, and streams placed late in a module used to be skipped silently; so time is charged at the rate ncpu / load, but never
+		less than a third of wall time (a quick check stays within ~2-3 minutes whatever happens)."""
+		now = time.time()
+		last = getattr(self, '_bc_last', self.t0)
+		try:
+			load = os.getloadavg()[0]
+		except OSError:
+			load = 0.0
+		ncpu = os.cpu_count() or 1
+		rate = 1.0 if load <= ncpu else max(ncpu / load, 1 / 3)
+		self._bc = getattr(self, '_bc', 0.0) + (now - last) * rate
+		self._bc_last = now
+		return max(self._bc, (now - self.t0) / 3)
+
 	def time_left(self, frac: float = 1.0) -> bool:
-		return self.elapsed() < self.budget * frac
+		return self.budget_clock() < self.budget * frac
 
 	def q(self, quick, thorough):
 		return quick if self.tier == 'quick' else thorough
